@@ -24,6 +24,7 @@ P1 == {1}
 PBoth == {1, -1}
 S3 == {1, 4, 36}
 S4 == {1, 4, 36, 400}
+S6 == {1, 9, 324, 18000}          \* C06, in units of 0.01 arcsec / pixel: 0.01'', 0.09'', 3.24'' and 0.05 deg per pixel (the ends of the stated range)
 Base(k, inc) == [k |-> k, cx |-> 40, cy |-> -24, inc |-> inc, vis |-> "v", sky |-> FALSE]
 Circle(inc) == Base("circle", inc) @@ [r |-> 12]
 Ell(k, d, inc) == Base(k, inc) @@ [w |-> 20, h |-> 8, d |-> d]
